@@ -76,6 +76,12 @@ fn step(u: &mut Unstructured) -> Result<Step> {
                 props,
                 correlate,
                 cancel: cancel(u)?,
+                via: match u.int_in_range(0..=9)? {
+                    7 | 8 => 1,
+                    9 => 3,
+                    6 => 2,
+                    _ => 0,
+                },
             })
         }
         5 => {
@@ -159,6 +165,7 @@ pub fn case(u: &mut Unstructured) -> Result<Case> {
             keep_session: u.ratio(4, 5)?,
             props: ConnackProps { receive_max: rm, ..ConnackProps::default() },
             io: io(u)?,
+            lost_pubrecs: u.ratio(1, 4)?,
         };
         let n = u.int_in_range(0..=14)?;
         let mut steps = Vec::new();
